@@ -1,0 +1,29 @@
+//go:build verif
+
+/*
+Verification hooks (build tag "verif").  With the tag off none of this exists
+and the yield points compile to nothing (see verif_off.go).
+*/
+package collection
+
+// VerifHook, when set, is called at every synchronisation point of a queue
+// (before a mutex is locked, before a token is sent or received, before the
+// token channel is closed) with the name of the point, the queue, and the
+// current length and capacity of its token channel.  A test harness uses it to
+// control the interleaving of goroutines.
+var VerifHook func(event string, queue any, length int, capacity int)
+
+func verifYield(event string, queue any) {
+	var hook = VerifHook
+	if hook != nil {
+		var length, capacity int
+		if q, ok := queue.(interface{ verifState() (int, int) }); ok {
+			length, capacity = q.verifState()
+		}
+		hook(event, queue, length, capacity)
+	}
+}
+
+func (v *queue_[V]) verifState() (length int, capacity int) {
+	return len(v.available_), cap(v.available_)
+}
